@@ -193,20 +193,23 @@ pub fn random_perturbation(rng: &mut Rng, thorough: bool) -> Perturbation {
                 set.push((vh::P_MAX_LAZY, l));
             }
             8 => set.push((vh::P_NICE_LENGTH, *rng.pick(&NICE))),
+            // every numeric field is drawn with a bias to the ends of its emit-able range
             9 => set.push((
                 vh::P_MAX_CHAIN,
-                match rng.below(4) {
+                match rng.below(6) {
                     0 => rng.range(1, 4) as u32,
                     1 => rng.range(1, 64) as u32,
+                    2 => *rng.pick(&[4096u32, 4095, 1]),
                     _ => rng.range(1, 4096) as u32,
                 },
             )),
             10 => set.push((
                 vh::P_MAX_DIST_3_MATCHES,
-                match rng.below(4) {
+                match rng.below(6) {
                     0 => 0,
                     1 => rng.range(0, 64) as u32,
                     2 => 4096,
+                    3 => *rng.pick(&[32768u32, 32767, 32506, 16384, 1]),
                     _ => rng.range(0, 32768) as u32,
                 },
             )),
